@@ -22,7 +22,31 @@ def _c15_parts(tier):
     ]
 
 
+RENDER_REAL = {
+    "real": ["django_components (all of it, from the working tree)", "Django 5.1 template engine",
+             "djc_core_html_parser (native)", "LocMemCache (default media cache)"],
+    "stub": ["id source (seeded unique ids over the real alphabet)", "user code (generated components, filters, tags)"],
+}
+
+
+def _c01_parts(tier):
+    from sim.engines import c01
+    q = tier == "quick"
+    return [{"engine": "c01", "params": c01.default_params(tier), "runs": 20_000 if q else 600_000,
+             "per_fork": 1, "wall_s": 90 if q else 1200}]
+
+
 SPECS = {
+    "C01": {
+        "level": "exploration",
+        "parts": _c01_parts,
+        "rule": "case = generated program (component library + page + context mode + knobs); distinct = distinct "
+                "blake2b of the program skeleton (node kinds, nesting, slot/fill names, flags) x mode; non-trivial = "
+                "model renders without error AND at least one fill is rendered inside another instance's slot or a "
+                "slot falls back to its own default content",
+        "real_vs_stub": RENDER_REAL,
+        "assumptions": ["reference renderer = lexical semantics of DESIGN.md Appendix A"],
+    },
     "C15": {
         "level": "exploration",
         "parts": _c15_parts,
